@@ -42,7 +42,7 @@ func init() {
 		Doc:      "no store into an element of a query.Cell, no append to / copy into / in-place sort of one, and no call handing one to a callee that writes its slice parameter, unless the cell was made in the same function (cells are shared between the cache, its copies, cursors and restore points)",
 		Controls: []string{"CtlStoreIntoCell", "CtlStoreIntoCellViaCallee"},
 		Run:      ruleIso4})
-	Register(&Rule{ID: "R-ISO-5", Props: []string{"C08"}, Floor: 24,
+	Register(&Rule{ID: "R-ISO-5", Props: []string{"C08", "C01"}, Floor: 24,
 		Doc:      "in every lib/query function that publishes a modified view (direct call of ViewMap.Set/Store, ReplaceTemporaryTable, SetTemporaryTable, or of a helper that does; the ten statement functions are frozen anchors) no return whose error may be non-nil is reachable after a publication call — cancellation returns (ConvertContextError(ctx.Err())) included: a library caller runs each statement under its own context, so a cancelled statement does not end the transaction. Error values are read edge-sensitively through Phi and result cells; the FileInfo attribute setters do not fail after their first field store and SetTableAttribute runs at most one setter per path. Single exemption with a checked side condition: results of RestoreHeaderReferences (Header.Update(_, nil) has no reachable non-nil return)",
 		Controls: []string{"CtlPublishThenFail", "CtlPublishInLoopThenFail", "CtlCancelBetweenPublications"},
 		Run:      ruleIso5})
